@@ -47,7 +47,11 @@ def shards(tier, seed):
         else:
             for pre in itertools.product(range(4), repeat=3):
                 out.append({'shape': list(shape), 'prefix': list(pre), 'temps': TEMPS if tier == 'thorough' else [1.0, 300.0, 20000.0], 'graph': pre[0] % 2 == 0 or tier == 'thorough'})
+    out.append({'dynamic_range': True})
     return out
+
+
+WIDE = [0, 1, 3, 10**9, 4 * 10**12]  # a voxel visited once next to voxels visited 1e9 .. 4e12 times
 
 
 _LAT = None
@@ -88,7 +92,8 @@ def evaluate(data, T, graph=True, vol=None):
         idx = tuple(idx)
         p = math.exp(-F[idx] / kT)
         psum += p
-        if abs(p - float(data[idx]) / tot) > tol:
+        q = float(data[idx]) / tot
+        if abs(p - q) > tol or abs(p - q) > (1e-4 if data.dtype == np.float32 else 1e-9) * q:  # absolute and relative: rarely visited voxels count too
             viols.append(('boltzmann-inversion-does-not-recover-probability', f'voxel {idx}: exp(-F/kT)={p} data/total={data[idx] / tot} T={T} data={data.tolist()}'))
             break
     if abs(psum - 1) > tol * max(1, int(vis.sum())):
@@ -125,6 +130,21 @@ def evaluate(data, T, graph=True, vol=None):
 
 def run_shard(shard) -> Result:
     res = Result()
+    if shard.get('dynamic_range'):
+        for vals in itertools.product(WIDE, repeat=4):
+            if not any(vals):
+                continue
+            for dt in (np.int64, float):
+                data = np.array(vals, dtype=dt).reshape(2, 2, 1)
+                for T in (300.0, 1000.0):
+                    viols, key = evaluate(data, T, graph=True)
+                    res.evals += 1
+                    res.outcome(hash(key))
+                    for kind, detail in viols:
+                        res.violation(kind, {'data': data.tolist(), 'T': T, 'dtype': np.dtype(dt).name}, detail)
+        res.stats['wide_dynamic_range_densities'] += 1
+        res.sample({'density': [1, 10**9, 0, 4 * 10**12], 'temperature': 300.0})
+        return res
     shape = tuple(shard['shape'])
     n = int(np.prod(shape))
     pre = [COUNTS[i] for i in shard['prefix']]
@@ -176,7 +196,7 @@ def run_shard(shard) -> Result:
 def replay(case):
     from gemdat.volume import Volume
 
-    data = np.array(case['data'])
+    data = np.array(case['data'], dtype=case['dtype']) if 'dtype' in case else np.array(case['data'])
     vol = Volume(data=data.copy(), lattice=lattice())
     if case.get('edited'):
         evaluate(data, case['T'], graph=False, vol=vol)
